@@ -2,10 +2,11 @@ import ShellOp.Util
 import ShellOp.Model.Snapshot
 import ShellOp.Model.FactoryStore
 import ShellOp.Model.SnapFilter
+import ShellOp.Model.BindingLookup
 import ShellOp.Drv.JsonParse
 /-! Line-protocol suite for C02 (snapshots). Core-only. -/
 namespace ShellOp.Drv.C02
-open ShellOp ShellOp.Util ShellOp.Snapshot ShellOp.Json ShellOp.SnapFilter
+open ShellOp ShellOp.Util ShellOp.Snapshot ShellOp.Json ShellOp.SnapFilter ShellOp.BindingLookup
 
 structure MonSt where
   id : Nat
@@ -31,6 +32,7 @@ structure St where
   conc : Option Conc := none
   heap : Heap Entry := {}                 -- backing arrays of the slices handed out by Snapshot()
   held : List (Nat × Slice) := []         -- snapshots an execution keeps holding, by monitor id
+  kbinds : List (KBind String) := []      -- kubernetes bindings of the hook: name (hex of its bytes) ↦ monitor
 
 def ridOf (st : St) (k : Key) : Nat :=
   match st.rid.find? (fun p => p.1 == k) with
@@ -289,6 +291,10 @@ def step (st : St) (toks : List String) : St × String :=
     match (kv? "in" rest).bind natList?, (kv? "got" rest).bind natList? with
     | some inp, some got => (st, if uniqExact inp got then "true" else "false")
     | _, _ => (st, "bad-op")
+  | ["cleanup", _, _] =>
+    -- which of the two free orders the harness chose for the clean-up goroutines of stopped
+    -- informers (before / after the registration of the new ones): no model state depends on it
+    (st, "ok")
   | ["stop", id] =>
     -- StopMonitor: the binding is gone (its snapshot is not observed any more); the other monitors
     -- of the case are untouched — that is the claim the `oracle snap` lines of the survivors test
@@ -371,6 +377,30 @@ def step (st : St) (toks : List String) : St × String :=
         else (st, s!"false want={showSnap (modelSort (ridOf st) ((specMatching ms.mc st.w).map (mkEntry ms.mc.cfg)))}")
       | none => (st, "bad-op")
     | none => (st, "bad-op")
+  | ["kbinds", l] =>
+    let ents := (strList l).mapM (fun x =>
+      match x.splitOn "=" with
+      | [n, m] => do some ({ name := n, monitor := ← m.toNat? } : KBind String)
+      | _ => none)
+    match ents with
+    | some e => ({ st with kbinds := e }, "ok")
+    | none => (st, "bad-op")
+  | "lookup" :: nm :: rest =>
+    -- the name → monitor glue (`SnapshotsFor`): which monitor is read for this name
+    match natList? ((kv? "has" rest).getD "-") with
+    | some has =>
+      (st, match snapshotsFor st.kbinds (has.contains ·) nm with
+        | some m => toString m
+        | none => "-")
+    | none => (st, "bad-op")
+  | "oracle" :: "lookup" :: nm :: rest =>
+    match natList? ((kv? "has" rest).getD "-"), (kv? "got" rest) with
+    | some has, some g =>
+      let got : Option (Option Nat) := if g == "-" then some none else g.toNat?.map some
+      match got with
+      | some got => (st, showBool (lookupExact st.kbinds (has.contains ·) nm got))
+      | none => (st, "false")
+    | _, _ => (st, "bad-op")
   | "hook" :: rest =>
     let g := fun k => parseDecls ((kv? k rest).getD "-")
     match g "kube", g "sched", g "val", g "mut", g "conv" with
